@@ -356,6 +356,11 @@ def run(ctx, report):
     from .c05 import merge_rule
     merge_rule(ctx, R8)
 
+    R9 = report.rule('C07.D9', 'a partial register write (constant pieces and one conditional piece) is folded to the concatenation of its pieces (eval_ExprCompose evaluated)', floor=5)
+    from .c06 import compose_fold_rule
+    ea9 = ctx.mod('eval_abs')
+    compose_fold_rule(R9, ea9, ea9.methods('eval_abs').get('eval_ExprCompose'))
+
     R3 = report.rule('C07.D3', 'evaluation never short-cuts on a flag that is not machine state', floor=1)
     ee = methods.get('eval_expr')
     if ee is None:
